@@ -6,6 +6,7 @@ mod perft;
 mod geometry;
 mod records;
 mod replay;
+mod search;
 mod trace;
 mod transient;
 mod util;
@@ -59,6 +60,10 @@ fn main() {
         "replay" => replay::main(rest),
         "record-games" => records::main(rest),
         "record-trace" => trace::main(rest),
+        "search-basic" => search::basic(rest),
+        "search-exact" => search::exact(rest),
+        "static-eval" => search::static_eval(rest),
+        "search-sched" => search::sched(rest),
         "record-cache" => cache::main(rest),
         "record-eval" => evalrec::main(rest),
         "perft" => perft::main(rest),
